@@ -188,6 +188,20 @@ fn run(input: RunInput) -> ScenFuture {
                 }
                 let res = match role {
                     1 => h.net.connect(adv.addr).await,
+                    // (in half of the cases while another dial of H's, naming the identity that really
+                    // lives at that address, is in flight: expectations belong to a dial, not to H)
+                    2 if r.gen_bool(0.5) => {
+                        w.probe("pinned-dials-with-different-expectations-in-flight");
+                        let other_delay = r.gen_range(0..3_000u64);
+                        let (a, b) = tokio::join!(h.net.connect_with_peer_id(adv.addr, x_id), async {
+                            sleep_us(other_delay).await;
+                            h.net.connect_with_peer_id(adv.addr, adv_id).await
+                        });
+                        if let Ok(pid) = &b {
+                            check_id(&w, Some(*pid), adv_id, "dial-returned-identity-the-remote-does-not-hold", "pinned dial naming the adversary's own identity");
+                        }
+                        a
+                    }
                     2 => h.net.connect_with_peer_id(adv.addr, x_id).await,
                     _ => h.net.connect_with_peer_id(adv.addr, adv_id).await,
                 };
